@@ -2159,6 +2159,11 @@ class ReferenceManager:
         if new_value is None:
             new_value = old_value
 
+        if (spec is not None and new_value is not old_value
+                and self.has_spec(new_value)):
+            # The spec of the new value would be left without a value
+            raise ValueError("The new value already has an IOSpec")
+
         if spec is not None:
             self._manager.update_spec_value(spec, new_value, kwargs)
             new_value = spec.value
